@@ -288,9 +288,13 @@ class Effects:
         all_def_nodes = set()
         for ns in def_nodes.values():
             all_def_nodes |= set(ns)
+        killer_nodes = set()
+        for d in defs:
+            if d.kind != "aug":
+                killer_nodes |= set(def_nodes[id(d)])
         for d in defs:
             mine = set(def_nodes[id(d)])
-            others = all_def_nodes - mine
+            others = killer_nodes - mine  # ``x += y`` does not end the life of earlier definitions
             seen = g.reach(list(mine), avoid=lambda x: x in others and x not in use_nodes)
             hit = False
             for u in use_nodes:
@@ -330,7 +334,10 @@ class Effects:
                 elif d.kind in ("elem", "elem_unpack"):
                     out |= self.roots_of(owner, d.value)
                 elif d.kind == "aug":
-                    out |= self.roots_of(owner, d.value)
+                    # ``x += y`` keeps the identity of a cobra object; for containers the elements of y join
+                    ts = inf.type_of(owner, ast.Name(id=name, ctx=ast.Load())) if False else inf._name_type(owner, name, owner.unit)
+                    if not any(t[0] == "cls" for t in ts):
+                        out |= self.roots_of(owner, d.value)
                 elif d.kind in ("def", "import"):
                     out.add(CONST)
                 elif d.kind == "except":
